@@ -319,6 +319,8 @@ def check_scorer_params(prog: Program, res: Result) -> None:
 
 
 def check(prog: Program, res: Result) -> None:
+    from . import _state
+    _state.check_no_cross_call_state(prog, res, "C08-state", ["sleap_nn.inference.paf_grouping:PAFScorer.predict", "sleap_nn.inference.paf_grouping:PAFScorer.score_paf_lines", "sleap_nn.inference.paf_grouping:PAFScorer.match_candidates", "sleap_nn.inference.paf_grouping:PAFScorer.group_instances"], floor=4)
     check_scorer_params(prog, res)
     c09.check_inf(prog, res, "C08-inf", PG)
     check_filter(prog, res)
